@@ -301,6 +301,18 @@ VARIANTS += [
    "				return ErrUnexpectedEOF\n			}\n			return err\n		}\n		r.begin, r.end, r.n = 0, 0, n", "				return ErrUnexpectedEOF\n			}\n			return errors.Wrap(err, \"record\")\n		}\n		r.begin, r.end, r.n = 0, 0, n"),
  V("c38-e2-reader-wraps-eof", "C38", "C38.E2", "record/record.go",
    "				return ErrUnexpectedEOF\n			}\n			return err\n		}\n		r.begin, r.end, r.n = 0, 0, n", "				return ErrUnexpectedEOF\n			}\n			return errors.Wrap(err, \"record\")\n		}\n		r.begin, r.end, r.n = 0, 0, n"),
+ V("c06-o4-invalidate-before-add", "C06", "C06.O4", "mem_table.go",
+   "	var ins arenaskl.Inserter\n	var tombstoneCount, rangeKeyCount uint32", "	var ins arenaskl.Inserter\n	var tombstoneCount, rangeKeyCount uint32\n	m.tombstones.invalidate(uint32(batch.countRangeDels))"),
+ V("c43-e3-reader-wraps-eof", "C43", "C43.E3", "record/record.go",
+   "				return ErrUnexpectedEOF\n			}\n			return err\n		}\n		r.begin, r.end, r.n = 0, 0, n", "				return ErrUnexpectedEOF\n			}\n			return errors.Wrap(err, \"record\")\n		}\n		r.begin, r.end, r.n = 0, 0, n"),
+ V("c20-l1-close-flag-outside-lock", "C20", "C20.L1", "record/log_writer.go",
+   "	f.Lock()\n	f.close = true\n	f.ready.Signal()\n	f.Unlock()", "	f.close = true\n	f.Lock()\n	f.ready.Signal()\n	f.Unlock()"),
+ V("c27-k1-blob-tag-before-read", "C27", "C27.K1", "sstable/blob/fetcher.go",
+   "		cr.currentValueBlock.loaded = false\n		var err error", "		cr.currentValueBlock.virtualID = vh.BlockID\n		var err error"),
+ V("c27-k1-valblk-tag-before-read", "C27", "C27.K1", "sstable/valblk/reader.go",
+   "		vbh, err := f.getBlockHandle(vh.BlockNum)\n		if err != nil {\n			return nil, err\n		}", "		f.valueBlockNum = vh.BlockNum\n		vbh, err := f.getBlockHandle(vh.BlockNum)\n		if err != nil {\n			return nil, err\n		}"),
+ V("c18-g3-any-read-error-is-eof", "C18", "C18.G3", "record/record.go",
+   "			if err == io.EOF && !wantFirst {\n				r.invalidOffset", "			if !wantFirst {\n				r.invalidOffset"),
  V("c17-g1-zero-seqnum-in-any-stripe", "C17", "C17.G1", "internal/compact/iterator.go",
    "	return i.cfg.IsBottommostDataLayer && snapshotIdx == 0", "	return i.cfg.IsBottommostDataLayer"),
  V("c17-g2-elide-in-non-last-stripe", "C17", "C17.G2", "internal/compact/iterator.go",
